@@ -494,8 +494,25 @@ func hookYield(what string) {
 	e.yield(t, "op:"+what)
 }
 
+// TimerSpawnSites lists functions whose `go` statements start a goroutine that only
+// sleeps on a real timer (minutes) before acting.  Inside a scheduler exploration such a
+// goroutine is not started: the explored horizon ends before any of these timers fires.
+var TimerSpawnSites []string
+
+// SkippedTimers counts the goroutines not started because of TimerSpawnSites.
+var SkippedTimers int64
+
 //go:norace
 func hookGo(f func()) {
+	if len(TimerSpawnSites) > 0 {
+		s := site(3)
+		for _, ts := range TimerSpawnSites {
+			if strings.Contains(s, ts) {
+				atomic.AddInt64(&SkippedTimers, 1)
+				return
+			}
+		}
+	}
 	e := cur
 	if e == nil || e.cur == nil {
 		// unmanaged (set-up phase): the goroutine runs freely, and the
